@@ -11,6 +11,19 @@ from picomon.driver import Driver, new_result, bump, h8
 from picomon.gen import docs as gd, corpus
 
 
+class _Labelled(list):
+    """list of jobs that remembers, per entry, which branch of the pool generator made it"""
+
+    def __init__(self):
+        super().__init__()
+        self.labels = []
+        self.current = "corpus"
+
+    def append(self, item):
+        super().append(item)
+        self.labels.append(self.current)
+
+
 _NUM_ATTRS = ("x", "y", "width", "height", "cx", "cy", "r", "rx", "ry", "x1", "y1", "x2", "y2", "fx", "fy")
 
 
@@ -80,8 +93,8 @@ def reference_families(rng, count):
     element meets the same key with different content."""
     out = []
     n = lambda a, b: gd.fnum(round(rng.uniform(a, b), 1))
-    for _ in range(count):
-        kind = rng.choice(("clip_chain", "gradient_template", "use_in_clip"))
+    for fi in range(count):
+        kind = ("clip_chain", "gradient_template", "use_in_clip")[fi % 3]
         tf = rng.choice(("", ' transform="translate(5 3)"', ' transform="rotate(10)"'))
         shape = f'<rect x="{n(5, 20)}" y="{n(5, 20)}" width="{n(50, 70)}" height="{n(50, 70)}" fill="{rng.choice(gd.PALETTE)}"'
         outer = f'<circle cx="{n(35, 55)}" cy="{n(35, 55)}" r="{n(25, 35)}"/>'
@@ -103,19 +116,37 @@ def reference_families(rng, count):
     return out
 
 
+POOL_LABELS = {}
+
+
+VOCAB = ["rotate(30)", "translate(40 10) rotate(30)", "rotate(30) scale(2)", "skewX(10)", "translate(5) skewX(10)", "skewY(10) rotate(45)",
+         "rotate(45)", "scale(2) rotate(45 10 10)", "rotate(45 10 10)", "translate(3 4)", "matrix(1 0 0 1 3 4)", "scale(0.5)"]
+
+
+def vocab_doc(rng):
+    """a small vocabulary of transform snippets shared between documents, so that anything memoised by
+    text across conversions is hit with the same keys in new contexts"""
+    shapes = "".join(f'<rect x="{rng.randint(0, 40)}" y="{rng.randint(0, 40)}" width="20" height="10" fill="{rng.choice(gd.PALETTE)}" transform="{rng.choice(VOCAB)}"/>'
+                     for _ in range(rng.randint(1, 4)))
+    return f'<svg xmlns="http://www.w3.org/2000/svg" viewBox="0 0 100 100">{shapes}</svg>'
+
+
 def doc_pool(seed, tier):
-    """Deterministic list of (text, ndigits, allow_text, drop_unsupported)."""
+    """Deterministic list of (text, ndigits, allow_text, drop_unsupported).
+    POOL_LABELS[(seed, tier)] holds the class of each entry (same order)."""
     rng = random.Random(f"C16-pool-{seed}")
-    pool = []
+    pool = _Labelled()
     files = corpus.files()
     rng.shuffle(files)
     for path in files[: (25 if tier == "quick" else 120)]:
         pool.append((open(path).read(), 3, False, False))
-    for text in reference_families(rng, 6 if tier == "quick" else 40):
+    pool.current = "family"
+    for text in reference_families(rng, 9 if tier == "quick" else 45):
         pool.append((text, 3, False, False))
     n = 60 if tier == "quick" else 500
     for i in range(n):
         k = rng.random()
+        pool.current = "mixed" if k < 0.55 else "gradient" if k < 0.67 else "stroke" if k < 0.72 else "clipped" if k < 0.82 else "text" if k < 0.88 else "vocab" if k < 0.95 else "raising"
         if k < 0.55:
             text, f, root, meta = gd.mixed_doc(rng, unsupported=True, noise=rng.random() < 0.4, text_only_unsupported=True)
             at = True if meta["unsupported"] else rng.random() < 0.3
@@ -156,19 +187,17 @@ def doc_pool(seed, tier):
             root = g.document(body_nodes=body, root_attrs={"fill": "red", "stroke-linecap": "round"})
             pool.append((gd.to_xml(root), 3, True, False))
         elif k < 0.95:
-            # a small vocabulary of transform / path snippets shared between documents, so that
-            # anything memoised by text across conversions is hit with the same keys in new contexts
-            vocab = ["rotate(30)", "translate(40 10) rotate(30)", "rotate(30) scale(2)", "skewX(10)", "translate(5) skewX(10)", "skewY(10) rotate(45)",
-                     "rotate(45)", "scale(2) rotate(45 10 10)", "rotate(45 10 10)", "translate(3 4)", "matrix(1 0 0 1 3 4)", "scale(0.5)"]
-            shapes = "".join(f'<rect x="{rng.randint(0, 40)}" y="{rng.randint(0, 40)}" width="20" height="10" fill="{rng.choice(gd.PALETTE)}" transform="{rng.choice(vocab)}"/>'
-                             for _ in range(rng.randint(1, 4)))
-            pool.append((f'<svg xmlns="http://www.w3.org/2000/svg" viewBox="0 0 100 100">{shapes}</svg>', 3, False, False))
+            pool.append((vocab_doc(rng), 3, False, False))
         else:
             # documents that raise (exception paths must leave no state behind)
             pool.append((rng.choice(('<svg xmlns="http://www.w3.org/2000/svg"><use xlink:href="#nope" xmlns:xlink="http://www.w3.org/1999/xlink"/></svg>',
                                      '<svg xmlns="http://www.w3.org/2000/svg" viewBox="0 0 10 10"><rect width="x"/></svg>',
                                      '<svg xmlns="http://www.w3.org/2000/svg" viewBox="0 0 10 10"><filter id="f"/><rect width="5" height="5"/></svg>')), 3, False, False))
-    return pool
+    pool.current = "vocab"
+    for _ in range(10 if tier == "quick" else 40):
+        pool.append((vocab_doc(rng), 3, False, False))
+    POOL_LABELS[(seed, tier)] = list(pool.labels)
+    return list(pool)
 
 
 def key(job):
@@ -202,11 +231,16 @@ class D(Driver):
         pool = doc_pool(seed, tier)
         n = len(pool)
         cs = []
-        alone_n = 30 if tier == "quick" else 150
+        alone_n = 44 if tier == "quick" else 180
         rng = random.Random(f"C16-cases-{seed}")
         idx = list(range(n))
         rng.shuffle(idx)
-        alone = idx[:alone_n]
+        # the classes whose output is most exposed to process state (pass-through text with inherited
+        # attributes, shared snippets, reference families, raising documents) always run alone under every
+        # hash seed as well; the rest of the quota is drawn at random
+        labels = POOL_LABELS.get((seed, tier), [])
+        must = [i for i in idx if i < len(labels) and labels[i] in ("text", "vocab", "family", "raising")][: alone_n * 2 // 3]
+        alone = must + [i for i in idx if i not in must][: alone_n - len(must)]
         for hs in ("0", "1", "2", "3", str(rng.randint(4, 2**31))):
             for j in range(0, len(alone), 10):
                 cs.append(("alone", hs, alone[j : j + 10]))
@@ -216,6 +250,9 @@ class D(Driver):
             batch = [rng.randrange(n) for _ in range(size)]
             # make sure the 'alone' documents appear in batches too, some twice
             batch += rng.sample(alone, min(len(alone), 10))
+            if b % 2 == 0:
+                # whole reference families and the shared-snippet documents meet in one process
+                batch += [i for i in range(n) if i < len(labels) and labels[i] in ("family", "vocab")]
             batch += batch[:3]
             rng.shuffle(batch)
             cs.append(("batch", rng.choice(("0", "1", "2", "3", str(rng.randint(4, 2**31)))), batch))
